@@ -178,6 +178,13 @@ func c20Check(s *sim, _ bool) vh.HistResult {
 					continue
 				}
 			}
+			if age := fields[len(fields)-1]; st.Act.Op == "clean" && hash == "" && ext == partExt && (age == "<1h" || age == "<24h") {
+				// no companion yet: the cleaner cannot know which version this is, and a partial younger
+				// than the threshold may be a transfer that has just been prepared
+				res.Viol = fmt.Sprintf("step %d %s: cleaning removed %s, a partial without companion (age %s, threshold 24 h): nothing says that this version was delivered, and a transfer that was just prepared loses its staged file\n%s",
+					i, st.Act, path, age, s.trace())
+				return res
+			}
 			if !hashDelivered(name, hash) {
 				res.Viol = fmt.Sprintf("step %d %s: cleaning removed %s (companion hash %q, age %s) although that version of %s was neither delivered nor logged as received\n%s",
 					i, st.Act, path, hash, fields[len(fields)-1], name, s.trace())
